@@ -47,7 +47,7 @@ m = {
          "kind_free_text": "Lean 4 executable models + property theorems (lean/RqModel), facts regenerated from /repo by a go/ast translator (harness/extract), and differential correspondence runs of the compiled model driver rqdrv against the real Go code added by go test -overlay"}
     ],
     "checks": checks,
-    "notes": "All checks go through ./check <ID>; per-property configuration in checks/<ID>.json; known findings in known_findings.json.",
+    "notes": "All checks go through ./check <ID>; per-property configuration in checks/<ID>.json; known findings (and fixed entries naming the /repo fix: commits) in known_findings.json and known_findings.d/<ID>.json; seeded changes and the detection matrix in seeded/; design, trusted base and limits in DESIGN.md.",
     "not_applicable": not_app,
 }
 json.dump(m, open(os.path.join(root, "MANIFEST.json"), "w"), indent=1)
